@@ -328,7 +328,14 @@ func c13Bubble(tp *core.Tape, e *core.Env) (ops []string) {
 			if wire == 0 {
 				continue
 			}
-			one(h, job, &sidecarsim.TargetSpec{Payload: payload, Gzip: gz, Fail: "break", FailOffset: off, Chunks: []int{1 + tp.Choose("chunk", 64)}}, false, "fault")
+			spec := &sidecarsim.TargetSpec{Payload: payload, Gzip: gz, Fail: "break", FailOffset: off, Chunks: []int{1 + tp.Choose("chunk", 64)}}
+			if tp.Bool("break_only_once", 1, 2) {
+				// the connection breaks once (target restarting, stale keep-alive); a second request would
+				// be answered properly: the scrape Prometheus asked for has failed all the same
+				spec.FailFirst = 1
+				e.Probe("break_then_target_fine")
+			}
+			one(h, job, spec, false, "fault")
 		case 5:
 			if avoidBody {
 				continue
